@@ -357,35 +357,62 @@ func (c *Ctx) PostingShape(ob *core.Obligation, r *Roles, keptConst string) {
 					if f == r.PostDst {
 						wantF, other = r.ReceiverName, "a receiver"
 					}
-					got := core.FieldOf(core.Strip(st.Val))
-					if ld, ok := core.Strip(st.Val).(*ssa.UnOp); ok {
-						got = core.FieldOf(ld.X)
+					// where the name is materialised: here, or - when the posting is built by a helper
+					// that is handed the two names - at every call of that helper
+					type nameSite struct {
+						val ssa.Value
+						b   *ssa.BasicBlock
+						pc  *core.PathConds
+						pos string
 					}
-					if got != wantF {
-						ob.Fail(key, pos, "Posting."+f.Name()+" is not taken from the name of "+other+" ("+core.ShortVal(st.Val)+")")
-						continue
-					}
-					if f == r.PostDst {
-						// never the kept marker: on every path the receiver's name was compared unequal to it
-						okKept := pc.Requires(b, func(l core.Lit) bool {
-							bo, ok := l.Cond.(*ssa.BinOp)
-							if !ok || (bo.Op != token.EQL && bo.Op != token.NEQ) {
-								return false
+					sitesN := []nameSite{{st.Val, b, pc, pos}}
+					if prm, ok := core.Strip(st.Val).(*ssa.Parameter); ok {
+						if as, ok := c.argSites(fn, prm); ok {
+							sitesN = nil
+							for _, a := range as {
+								c.Touch(a.Caller)
+								sitesN = append(sitesN, nameSite{a.Arg, a.Site.Block(), core.NewPathConds(a.Caller), c.P.Pos(a.Site.Pos())})
 							}
-							var oth ssa.Value
-							if k, ok := core.ConstString(bo.Y); ok && k == keptConst {
-								oth = bo.X
-							} else if k, ok := core.ConstString(bo.X); ok && k == keptConst {
-								oth = bo.Y
-							} else {
-								return false
-							}
-							return core.Canon(oth) == core.Canon(st.Val) && (bo.Op == token.NEQ) == l.Val
-						})
-						if !okKept {
-							ob.Fail(key, pos, "a posting can be built whose destination is the internal kept marker: the branch for kept funds does not exclude it on every path")
-							continue
 						}
+					}
+					failed := false
+					for _, ns := range sitesN {
+						got := core.FieldOf(core.Strip(ns.val))
+						if ld, ok := core.Strip(ns.val).(*ssa.UnOp); ok {
+							got = core.FieldOf(ld.X)
+						}
+						if got != wantF {
+							ob.Fail(key, ns.pos, "Posting."+f.Name()+" is not taken from the name of "+other+" ("+core.ShortVal(ns.val)+")")
+							failed = true
+							break
+						}
+						if f == r.PostDst {
+							// never the kept marker: on every path the receiver's name was compared unequal to it
+							val := ns.val
+							okKept := ns.pc.Requires(ns.b, func(l core.Lit) bool {
+								bo, ok := l.Cond.(*ssa.BinOp)
+								if !ok || (bo.Op != token.EQL && bo.Op != token.NEQ) {
+									return false
+								}
+								var oth ssa.Value
+								if k, ok := core.ConstString(bo.Y); ok && k == keptConst {
+									oth = bo.X
+								} else if k, ok := core.ConstString(bo.X); ok && k == keptConst {
+									oth = bo.Y
+								} else {
+									return false
+								}
+								return core.Canon(oth) == core.Canon(val) && (bo.Op == token.NEQ) == l.Val
+							})
+							if !okKept {
+								ob.Fail(key, ns.pos, "a posting can be built whose destination is the internal kept marker: the branch for kept funds does not exclude it on every path")
+								failed = true
+								break
+							}
+						}
+					}
+					if failed {
+						continue
 					}
 					ob.Pass(key, pos, "Posting."+f.Name()+" <- "+other+"'s name")
 				case r.PostAsset:
@@ -394,21 +421,7 @@ func (c *Ctx) PostingShape(ob *core.Obligation, r *Roles, keptConst string) {
 						ob.Fail(key, pos, "Posting.Asset is not the reconciler's asset parameter")
 						continue
 					}
-					idx := paramIndex(fn, p)
-					bad := ""
-					node := c.P.CallGraph().Nodes[fn]
-					if node != nil {
-						for _, e := range node.In {
-							if !c.P.InModule(e.Caller.Func) {
-								continue
-							}
-							arg := core.CallArgs(e.Site.Common())[idx]
-							ld, ok := arg.(*ssa.UnOp)
-							if !ok || core.FieldOf(ld.X) != r.CurAssetF {
-								bad = "the asset passed at " + c.P.Pos(e.Site.Pos()) + " is not the current asset of the statement"
-							}
-						}
-					}
+					bad := c.assetParamIsCurrent(fn, p, r, 0)
 					if bad != "" {
 						ob.Fail(key, pos, bad)
 					} else {
@@ -421,6 +434,37 @@ func (c *Ctx) PostingShape(ob *core.Obligation, r *Roles, keptConst string) {
 	if n == 0 {
 		ob.Unknown("posting:none", "-", "no construction of a Posting found")
 	}
+}
+
+// assetParamIsCurrent: every call in the module passes the statement's current asset for p
+// (or forwards its own parameter for which that holds); the complaint otherwise.
+func (c *Ctx) assetParamIsCurrent(fn *ssa.Function, p *ssa.Parameter, r *Roles, depth int) string {
+	idx := paramIndex(fn, p)
+	node := c.P.CallGraph().Nodes[fn]
+	if node == nil || idx < 0 || depth > 3 {
+		return ""
+	}
+	for _, e := range node.In {
+		if !c.P.InModule(e.Caller.Func) {
+			continue
+		}
+		args := core.CallArgs(e.Site.Common())
+		if idx >= len(args) {
+			continue
+		}
+		arg := args[idx]
+		if q, ok := arg.(*ssa.Parameter); ok && q.Parent() == e.Caller.Func {
+			if bad := c.assetParamIsCurrent(e.Caller.Func, q, r, depth+1); bad != "" {
+				return bad
+			}
+			continue
+		}
+		ld, ok := arg.(*ssa.UnOp)
+		if !ok || core.FieldOf(ld.X) != r.CurAssetF {
+			return "the asset passed at " + c.P.Pos(e.Site.Pos()) + " is not the current asset of the statement"
+		}
+	}
+	return ""
 }
 
 // AssetAssignedBeforeUse (C02.4 / C09.2): in every function that assigns the current asset,
